@@ -22,7 +22,7 @@ RULE = (
     "inserts in reverse; appends with interleaved removals) that end in the same sequence; in 40% of the pairs the two "
     "files are of different classes of the same family (framework class, a subclass, a sibling, a sub-subclass); "
     "compared with the model. reread: (register definitions, content) read twice -> the two files must be equal and "
-    "write identical output. non-trivial = pair with same-family right-hand side of length >= 1; distinct by full case."
+    "write identical output; a third file with the same elements is built through the API and, when it compares equal, must write the same output too. non-trivial = pair with same-family right-hand side of length >= 1; distinct by full case."
 )
 ASSUMPTIONS = [
     "element classes of the harness use the isinstance(o, self.__class__) idiom of cfinterface.Register",
@@ -149,7 +149,23 @@ def run_impl(case):
                 except Exception as e:
                     return ("raised", type(e).__name__)
 
-            return {"checks": {"read_twice_files_equal": bool(f1 == f2), "read_twice_reverse_equal": bool(f2 == f1), "read_twice_not_unequal": not (f1 != f2), "read_twice_data_equal": bool(f1.data == f2.data), "equal_files_write_identical_output": written(f1) == written(f2)}}
+            # a third file with the same elements built through the API (fresh elements of the same classes
+            # holding copies of the data): when it compares equal to the file that was read, the two must write
+            # the same output — whatever the identifier columns of the text looked like
+            import copy
+            from cfinterface.data.registerdata import RegisterData
+
+            els = [e for e in fsup.capped(f1.data, 2000)]
+            data3 = None
+            for e in els:
+                ne = type(e)(data=copy.deepcopy(e.data))
+                if data3 is None:
+                    data3 = RegisterData(ne)
+                else:
+                    data3.append(ne)
+            f3 = RF(data=data3)
+            api_ok = (written(f1) == written(f3)) if bool(f1 == f3) and bool(f3 == f1) else True
+            return {"checks": {"equal_file_built_through_the_api_writes_identical_output": api_ok, "read_twice_files_equal": bool(f1 == f2), "read_twice_reverse_equal": bool(f2 == f1), "read_twice_not_unequal": not (f1 != f2), "read_twice_data_equal": bool(f1.data == f2.data), "equal_files_write_identical_output": written(f1) == written(f2)}}
         fam = case["family"]
         types = mk_classes(fam)
         fa = build(fam, case["a"], types, case.get("route_a", "append"), case.get("fcls_a", "base"))
